@@ -207,3 +207,28 @@ func startRun(t *testing.T) *vf.Run {
 	setup(t)
 	return vf.Start(t, "C17")
 }
+
+// witnessConf is the small valid configuration of the deterministic witness cases.
+const witnessConf = `{"pools":[{"id":"w","gun":{"type":"http","target":"127.0.0.1:80"},"ammo":{"type":"uri","file":"/c17/ammo.uri","limit":5},` +
+	`"result":{"type":"discard"},"rps":{"type":"once","times":1},"startup":{"type":"once","times":1}}]}`
+
+// witness runs the fixed case of a finding through the same check as the generated cases,
+// before the search. While the finding is listed as "known" a failure is only counted
+// (KnownHit => KNOWN-FINDING line); otherwise (never listed, or listed as fixed) the witness
+// is a plain regression case and a failure is a violation with its own replay file.
+func witness[C any](t *testing.T, r *vf.Run, id string, c C, check func(C, *vf.Obs) error) {
+	t.Helper()
+	if os.Getenv("VERIF_REPLAY") != "" {
+		return
+	}
+	o := &vf.Obs{}
+	err := vf.Guard(func() error { return check(c, o) })
+	if err != nil && r.IsKnown(id) {
+		r.KnownHit(id)
+		return
+	}
+	r.Record(c, o, err)
+	if err != nil {
+		t.Errorf("witness of %s fails: %v", id, err)
+	}
+}
